@@ -20,6 +20,7 @@ import (
 	"time"
 
 	"github.com/cloudwego/eino/compose"
+	"github.com/cloudwego/eino/schema"
 
 	"verif/harness/lib"
 )
@@ -42,6 +43,8 @@ type Node struct {
 type Graph struct {
 	Nodes []Node `json:"nodes"`
 	Dag   bool   `json:"dag,omitempty"`
+	Wf    bool   `json:"wf,omitempty"` // built as a compose.Workflow (all-predecessor, eager) instead of a compose.Graph
+	Chain bool   `json:"chain,omitempty"` // built as a compose.Chain (the graph is one chain; node keys through WithNodeKey)
 	// interrupt points of this graph (compile options; resume cases only)
 	IB []int `json:"ib,omitempty"`
 	IA []int `json:"ia,omitempty"`
@@ -60,7 +63,8 @@ type BOp struct {
 type Call struct {
 	Script []BOp `json:"script"`
 	Pass   []int `json:"pass"`
-	Stream bool  `json:"stream,omitempty"`
+	Stream bool  `json:"stream,omitempty"`   // the output is taken as a stream (Stream / Transform)
+	InStr  bool  `json:"instr,omitempty"`    // the input is given as a stream (Collect / Transform)
 	CpPos  int   `json:"cppos,omitempty"` // resume cases: position of WithCheckPointID among the passed options
 }
 
@@ -120,8 +124,14 @@ func (n Node) ty() int {
 // nested graph and a lambda take the whole map, so that they can be re-entered / re-run from
 // a checkpoint, which hands them the zero value as input).
 type built struct {
-	g      *compose.Graph[map[string]any, map[string]any]
+	g      compilable
 	inputs map[string]any
+}
+
+// compilable: *compose.Graph and *compose.Workflow
+type compilable interface {
+	compose.AnyGraph
+	Compile(ctx context.Context, opts ...compose.GraphCompileOption) (compose.Runnable[map[string]any, map[string]any], error)
 }
 
 func (b *built) input() map[string]any {
@@ -147,6 +157,9 @@ func compileOpts(g Graph) []compose.GraphCompileOption {
 		mode = compose.AllPredecessor
 	}
 	o := []compose.GraphCompileOption{compose.WithNodeTriggerMode(mode)}
+	if g.Wf || g.Chain {
+		o = nil // a workflow has its own trigger mode (all predecessors, eager), a chain is pregel
+	}
 	if len(g.IB) > 0 {
 		o = append(o, compose.WithInterruptBeforeNodes(keyStrs(g.IB)))
 	}
@@ -163,9 +176,15 @@ func buildGraph(ctx context.Context, F []Graph, gi int, pre []int, depth int) (*
 	return bt, err
 }
 
-func buildGraph1(ctx context.Context, F []Graph, gi int, pre []int, depth int, bt *built) (*compose.Graph[map[string]any, map[string]any], error) {
+func buildGraph1(ctx context.Context, F []Graph, gi int, pre []int, depth int, bt *built) (compilable, error) {
 	if gi < 0 || gi >= len(F) || depth > len(F) {
 		return nil, fmt.Errorf("harness: bad forest")
+	}
+	if F[gi].Wf {
+		return buildWorkflow1(ctx, F, gi, pre, depth, bt)
+	}
+	if F[gi].Chain {
+		return buildChain1(ctx, F, gi, pre, depth, bt)
 	}
 	g := compose.NewGraph[map[string]any, map[string]any]()
 	targets := map[string]bool{}
@@ -182,7 +201,7 @@ func buildGraph1(ctx context.Context, F []Graph, gi int, pre []int, depth int, b
 		name := pathName(p)
 		switch nd.Kind {
 		case "comp":
-			v, err := addComp(ctx, g, key, name, nd.Ty)
+			v, err := addComp(ctx, graphSink{g}, key, name, nd.Ty)
 			if err != nil {
 				return nil, err
 			}
@@ -307,6 +326,37 @@ func buildOpts(c Call) ([]compose.Option, error) {
 
 // ---------------------------------------------------------------- running
 
+// callRunnable runs one call through the entry point the call asks for: Invoke, Stream,
+// Collect or Transform.
+func callRunnable(ctx context.Context, r compose.Runnable[map[string]any, map[string]any], in map[string]any, cl Call, opts []compose.Option) error {
+	drain := func(sr *schema.StreamReader[map[string]any], e error) error {
+		if e != nil {
+			return e
+		}
+		defer sr.Close()
+		for {
+			_, e := sr.Recv()
+			if e == io.EOF {
+				return nil
+			}
+			if e != nil {
+				return e
+			}
+		}
+	}
+	switch {
+	case cl.InStr && cl.Stream:
+		return drain(r.Transform(ctx, schema.StreamReaderFromArray([]map[string]any{in}), opts...))
+	case cl.InStr:
+		_, e := r.Collect(ctx, schema.StreamReaderFromArray([]map[string]any{in}), opts...)
+		return e
+	case cl.Stream:
+		return drain(r.Stream(ctx, in, opts...))
+	}
+	_, e := r.Invoke(ctx, in, opts...)
+	return e
+}
+
 type visitFn func(p []int, nd Node)
 
 // walk enumerates, in DFS order of the forest, the nodes that execute (every ancestor sub
@@ -366,26 +416,7 @@ func runCase(c *Case) (obs []CallObs, fatal string) {
 		go func() {
 			defer close(done)
 			pan = lib.Recover(func() {
-				if cl.Stream {
-					sr, e := r.Stream(cctx, b.input(), opts[i]...)
-					if e != nil {
-						cerr = e
-						return
-					}
-					defer sr.Close()
-					for {
-						_, e := sr.Recv()
-						if e == io.EOF {
-							return
-						}
-						if e != nil {
-							cerr = e
-							return
-						}
-					}
-				} else {
-					_, cerr = r.Invoke(cctx, b.input(), opts[i]...)
-				}
+				cerr = callRunnable(cctx, r, b.input(), cl, opts[i])
 			})
 		}()
 		select {
